@@ -1,2 +1,391 @@
-// Package c03 is the check for property C03 (see DESIGN.md section 3).
+// Package c03: no documented breaking change goes unreported.
+//
+// Bounded-exhaustive exploration: a catalogue of edit operators (one or more per breaking rule) is
+// applied at every applicable position (top level, nested once, nested twice, second file) of three
+// base schemas (proto2, proto3, edition 2023), each in three surroundings (alone, with unrelated
+// additive edits textually before, after); every resulting (old, new) pair is run through the real
+// bufcheck.Client.Breaking under FILE / PACKAGE / WIRE_JSON / WIRE and every single-rule config of
+// buf.yaml v1beta1 / v1 / v2. Oracle (reference model written from the rule documentation, ref.go):
+// rule active in the config and the operator's documented expectation applies => an annotation with
+// that rule ID exists whose message names the edited element, whose file is the element's file and
+// whose line is the element's line in the new version.
+//
+// The schema DSL, the operator catalogue and the engine are exported: checks/c04 reuses them.
 package c03
+
+import (
+	"fmt"
+	"os"
+	"runtime/debug"
+	"sort"
+	"strings"
+	"sync"
+	"time"
+
+	"github.com/bufbuild/bufverif/internal/bufx"
+	"github.com/bufbuild/bufverif/internal/evid"
+)
+
+func init() {
+	evid.Register(&evid.Check{ID: "C03", Level: "exploration", Run: run, QuickBudget: 300 * time.Second, ThoroughBudget: 30 * time.Minute})
+}
+
+type caseT struct {
+	Instance    string               `json:"instance"`
+	Surrounding string               `json:"surrounding"`
+	Config      string               `json:"config"`
+	Expect      *Expect              `json:"expect,omitempty"`
+	ExpectLine  int                  `json:"expect_line,omitempty"`
+	Annotations []bufx.Annotation    `json:"annotations"`
+	Changed     map[string][2]string `json:"changed_files_old_new,omitempty"`
+}
+
+type workItem struct {
+	in   *Instance
+	mode int
+}
+
+// AllInstances returns the whole catalogue (three bases + the syntax operator).
+func AllInstances(full bool) []Instance {
+	var out []Instance
+	for _, b := range Bases() {
+		out = append(out, Instances(b, full)...)
+	}
+	out = append(out, SyntaxInstances()...)
+	return out
+}
+
+func normSig(s string) string {
+	s = strings.Map(func(r rune) rune {
+		switch {
+		case r >= 'a' && r <= 'z', r >= 'A' && r <= 'Z', r >= '0' && r <= '9', r == '_', r == '-', r == '>', r == '.':
+			return r
+		}
+		return '_'
+	}, s)
+	if len(s) > 80 {
+		s = s[:80]
+	}
+	return s
+}
+
+// CheckRuleTable compares buf's own rule/category tables (Client.AllRules) with the documented matrix.
+func CheckRuleTable(r *evid.Run, eng *Engine) {
+	for _, v := range Versions {
+		rules, err := eng.AllRules(v)
+		if err != nil {
+			r.Incomplete("AllRules " + v + ": " + err.Error())
+			return
+		}
+		seen := map[string]bool{}
+		for _, ri := range rules {
+			r.Eval(1)
+			seen[ri.ID] = true
+			doc, ok := DocCategories(v, ri.ID)
+			if ri.Deprecated {
+				isNoop := false
+				for _, d := range DeprecatedNoop {
+					if d == ri.ID {
+						isNoop = true
+					}
+				}
+				if !isNoop || len(ri.Categories) != 0 {
+					r.Violate("rule-table/"+v+"/"+ri.ID+"/deprecated", fmt.Sprintf("%s: rule %s is deprecated=%v with categories %v; documented categories %v", v, ri.ID, ri.Deprecated, ri.Categories, doc), ri)
+				}
+				continue
+			}
+			want := append([]string(nil), doc...)
+			sort.Strings(want)
+			if !ok || strings.Join(want, ",") != strings.Join(ri.Categories, ",") {
+				r.Violate("rule-table/"+v+"/"+ri.ID, fmt.Sprintf("%s: rule %s is in categories %v, documented: %v (exists=%v)", v, ri.ID, ri.Categories, want, ok), ri)
+			}
+		}
+		for _, id := range DocRules(v) {
+			if !seen[id] {
+				r.Violate("rule-table/"+v+"/"+id+"/missing", fmt.Sprintf("%s: documented rule %s does not exist", v, id), id)
+			}
+		}
+	}
+}
+
+// configsFor selects the configurations one work item is run under.
+//
+// Every rule handler runs independently of which other rules are selected, so the union config
+// (use: FILE+PACKAGE+WIRE_JSON+WIRE = every documented rule active) checks all expectations of a case in
+// one call; the category and single-rule configs add the category -> rule expansion of each version.
+//
+//	quick:    union v2 for every item; union v1beta1+v1, the 12 category configs and the single-rule
+//	          configs of the expected rules for items without surrounding at the positions top / file
+//	          (field-type table: no single-rule configs)
+//	thorough: the three union configs for every item; category + single-rule configs for every item
+//	          except the field-type table, which gets the category configs without surrounding on the
+//	          singular slot
+func configsFor(in *Instance, mode int, full bool) []Config {
+	table := in.Op == "field-type"
+	unions := UnionConfigs()
+	cats, singles := false, false
+	if full {
+		if table {
+			cats = mode == SurroundNone && !strings.Contains(in.Variant, "/") && strings.HasSuffix(in.Site, "#20")
+		} else {
+			cats, singles = true, true
+		}
+	} else {
+		shallow := in.Pos == "top" || in.Pos == "file"
+		if mode == SurroundNone && shallow {
+			cats, singles = true, !table
+		} else {
+			unions = unions[2:] // v2 only
+		}
+	}
+	cfgs := unions
+	if cats {
+		cfgs = append(cfgs, CategoryConfigs()...)
+	}
+	if singles {
+		seen := map[string]bool{}
+		for _, ex := range in.Expects {
+			if seen[ex.Rule] {
+				continue
+			}
+			seen[ex.Rule] = true
+			for _, v := range Versions {
+				if _, ok := DocCategories(v, ex.Rule); ok {
+					cfgs = append(cfgs, Config{Version: v, Use: ex.Rule, IsRule: true})
+				}
+			}
+		}
+	}
+	return cfgs
+}
+
+func run(r *evid.Run) {
+	full := !r.Quick()
+	r.Rule("case = (base schema in {proto2, proto3, edition 2023} or the syntax-neutral base, edit operator + variant, position = every element the operator applies to (top / nested1 / nested2 / second file / file level), surrounding in {none, unrelated additive edits before, after}, config); " +
+		"configs: use:[FILE,PACKAGE,WIRE_JSON,WIRE] (all rules active) x {v1beta1,v1,v2} for every case, plus each of FILE / PACKAGE / WIRE_JSON / WIRE and each expected single rule x 3 versions for every case without surrounding (thorough: in all surroundings); " +
+		"field-type table = every ordered pair of the 15 scalar kinds + enum + message + group on the slot field of the message at each of the 4 positions (quick: singular field, no surroundings, category configs at the top position; thorough: also repeated field and oneof member, all surroundings); " +
+		"a case is distinct and non-trivial when the reference model expects at least one annotation for it (key = instance id / surrounding)")
+	r.Assume("expectations claim only what a rule's Purpose text and the rule documentation state; edits whose status the docs leave open (repeated<->map for the wire cardinality rules, STRING_PIECE->STRING, json_name side effect of a rename, alias removal) carry no expectation")
+	r.Assume("category membership is the documented rule matrix transcribed in ref.go (docMembershipV2 + per-version deltas); buf's own tables are compared against it (oracle rule-table)")
+	r.Assume("positions are checked by line (the renderer puts every element on its own line); columns are not checked")
+	r.Assume("annotation 'names the element' = message contains the element's number and/or name and its parent's short name, double-quoted, as listed per operator")
+
+	// the real code allocates heavily per call; a laxer GC target halves the CPU cost of a run
+	defer debug.SetGCPercent(debug.SetGCPercent(400))
+	eng := NewEngine()
+	CheckRuleTable(r, eng)
+
+	var mu sync.Mutex
+	ruleExpected := map[string]int{}  // rule -> active expectation checks
+	ruleSatisfied := map[string]int{} // rule -> satisfied
+	opCount := map[string]int{}
+	posCount := map[string]int{}
+	modeCount := map[string]int{}
+	cfgCount := map[string]int{}
+	baseCount := map[string]int{}
+	lineChecked := 0
+	buildErrs := 0
+	totalInstances, totalItems := 0, 0
+
+	onlyOps := map[string]bool{}
+	if v := os.Getenv("VERIF_C03_ONLY_OPS"); v != "" {
+		// debugging / mutant triage aid: restrict the catalogue to some operators (run is then marked incomplete)
+		for _, o := range strings.Split(v, ",") {
+			onlyOps[o] = true
+		}
+		r.Incomplete("filtered run: VERIF_C03_ONLY_OPS=" + v)
+	}
+	process := func(instances []Instance) {
+		if len(onlyOps) > 0 {
+			var keep []Instance
+			for _, in := range instances {
+				if onlyOps[in.Op] {
+					keep = append(keep, in)
+				}
+			}
+			instances = keep
+		}
+		var items []workItem
+		for i := range instances {
+			in := &instances[i]
+			modes := []int{SurroundNone, SurroundBefore, SurroundAfter}
+			if !full {
+				// quick: the index-shifting surrounding only, and none for the field-type table
+				modes = []int{SurroundNone, SurroundBefore}
+				if in.Op == "field-type" {
+					modes = []int{SurroundNone}
+				}
+			}
+			for _, m := range modes {
+				items = append(items, workItem{in, m})
+			}
+		}
+		totalInstances += len(instances)
+		totalItems += len(items)
+		r.ParallelFor(len(items), 0, func(i int) {
+			it := items[i]
+			in := it.in
+			p, err := eng.Prepare(in, it.mode)
+			if err != nil {
+				mu.Lock()
+				buildErrs++
+				mu.Unlock()
+				r.Incomplete("harness: " + err.Error())
+				return
+			}
+			cfgs := configsFor(in, it.mode, full)
+			results := map[string][]bufx.Annotation{}
+			for _, c := range cfgs {
+				anns, err := eng.Breaking(c, p.NewImg, p.OldImg)
+				r.Eval(1)
+				if err != nil {
+					if strings.HasPrefix(err.Error(), "config ") {
+						r.Incomplete("harness: " + err.Error())
+						continue
+					}
+					r.Violate("breaking-error/"+in.Op+"/"+normSig(err.Error()), fmt.Sprintf("Breaking returned a non-annotation error for a valid schema pair: %v", err),
+						caseT{Instance: in.ID(), Surrounding: SurroundNames[it.mode], Config: c.String(), Changed: p.ChangedFiles()})
+					continue
+				}
+				results[c.String()] = anns
+				for _, a := range anns {
+					if strings.Contains(a.Message, "%!") {
+						r.Violate("malformed-message/"+a.Type, fmt.Sprintf("annotation message contains a fmt error marker: %q", a.Message),
+							caseT{Instance: in.ID(), Surrounding: SurroundNames[it.mode], Config: c.String(), Annotations: []bufx.Annotation{a}, Changed: p.ChangedFiles()})
+					}
+				}
+			}
+			localExp := map[string]int{}
+			localSat := map[string]int{}
+			localCfg := map[string]int{}
+			lines := 0
+			for _, c := range cfgs {
+				anns, ok := results[c.String()]
+				if !ok {
+					continue
+				}
+				for ei := range in.Expects {
+					ex := in.Expects[ei]
+					if !c.Active(ex.Rule) {
+						continue
+					}
+					line := p.Line(ex)
+					if line > 0 {
+						lines++
+					}
+					localExp[ex.Rule]++
+					localCfg[c.Kind()]++
+					kind := Match(ex, line, anns)
+					if kind == "" {
+						localSat[ex.Rule]++
+						continue
+					}
+					sig := "unreported/" + ex.Rule + "/" + in.Op + "/" + kind
+					if ex.Role != "" {
+						// a role names the structural reason independently of the operator that produced the case
+						sig = "unreported/" + ex.Rule + "/" + ex.Role + "/" + kind
+					}
+					if !c.IsRule && !c.Union && kind == "absent" {
+						// reported when all rules are active? then the category table is at fault
+						if u, ok := results[Config{Version: c.Version, Use: "ALL", Union: true}.String()]; ok && Match(ex, line, u) == "" {
+							sig = "category-membership/" + c.Version + "/" + c.Use + "/" + ex.Rule
+						}
+					}
+					r.Violate(sig, fmt.Sprintf("%s [%s] under %s: expected a %s annotation naming %v in file %q (line %d), failure: %s; got %d annotation(s) of that rule",
+						in.ID(), SurroundNames[it.mode], c, ex.Rule, ex.Names, ex.File, line, kind, countType(anns, ex.Rule)),
+						caseT{Instance: in.ID(), Surrounding: SurroundNames[it.mode], Config: c.String(), Expect: &ex, ExpectLine: line, Annotations: anns, Changed: p.ChangedFiles()})
+				}
+			}
+			if len(in.Expects) > 0 {
+				r.Distinct(in.ID() + "/" + SurroundNames[it.mode])
+			}
+			r.SampleEvery(i, 1499, func() any {
+				return caseT{Instance: in.ID(), Surrounding: SurroundNames[it.mode], Config: "v2/ALL", Expect: firstExpect(in), Annotations: results["v2/ALL"]}
+			})
+			mu.Lock()
+			for k, v := range localExp {
+				ruleExpected[k] += v
+			}
+			for k, v := range localSat {
+				ruleSatisfied[k] += v
+			}
+			for k, v := range localCfg {
+				cfgCount[k] += v
+			}
+			opCount[in.Op]++
+			posCount[in.Pos]++
+			modeCount[SurroundNames[it.mode]]++
+			baseCount[in.Base]++
+			lineChecked += lines
+			mu.Unlock()
+		})
+	}
+	// one base at a time (bounds memory: every instance holds its own copy of the new schema)
+	process(SyntaxInstances())
+	for _, b := range Bases() {
+		if r.Expired() {
+			break
+		}
+		process(Instances(b, full))
+	}
+	r.Set("instances", totalInstances)
+	r.Set("work_items", totalItems)
+
+	r.Set("expectation_checks_per_rule", ruleExpected)
+	r.Set("expectation_satisfied_per_rule", ruleSatisfied)
+	r.Set("work_items_per_operator", opCount)
+	r.Set("work_items_per_position", posCount)
+	r.Set("work_items_per_surrounding", modeCount)
+	r.Set("work_items_per_base", baseCount)
+	r.Set("expectation_checks_per_config", cfgCount)
+	r.Set("expectation_checks_with_line", lineChecked)
+	r.Set("operators", len(opCount))
+	r.Set("schema_build_errors", buildErrs)
+	r.Set("deprecated_noop_rules_not_exercised", DeprecatedNoop)
+	without := []string{}
+	for _, v := range Versions {
+		for _, id := range DocRules(v) {
+			if ruleExpected[id] == 0 && !contains(without, id) {
+				without = append(without, id)
+			}
+		}
+	}
+	sort.Strings(without)
+	r.Set("rules_without_operator", without)
+	if len(without) > 0 && !r.Expired() {
+		r.Incomplete(fmt.Sprintf("breaking rules never expected by any catalogue case: %v", without))
+	}
+	if !r.Expired() {
+		for _, pos := range []string{"top", "nested1", "nested2", "second", "file"} {
+			if posCount[pos] == 0 {
+				r.Incomplete("position never exercised: " + pos)
+			}
+		}
+	}
+}
+
+func contains(xs []string, x string) bool {
+	for _, y := range xs {
+		if y == x {
+			return true
+		}
+	}
+	return false
+}
+
+func countType(anns []bufx.Annotation, rule string) int {
+	n := 0
+	for _, a := range anns {
+		if a.Type == rule {
+			n++
+		}
+	}
+	return n
+}
+
+func firstExpect(in *Instance) *Expect {
+	if len(in.Expects) == 0 {
+		return nil
+	}
+	return &in.Expects[0]
+}
